@@ -182,6 +182,48 @@ def fixed_texts(limit):
     return res
 
 
+# ---- over-indented lines: the limiter finds no break in front of the limit,
+# strips the indentation and retries.  (kind, head, separator, closing)
+OVERIND = [("ind-decl", "integer :: ", ", ", ""),
+           ("ind-call", "call k_code(", ", ", ")"),
+           ("ind-call-nospace", "CALL k_code(nl,", ",", ")"),
+           ("ind-use", "use a_mod, only: ", ", ", ""),
+           ("ind-assign", "res_v = ", " + ", ""),
+           ("ind-assign-blank", "if (l_a) ", " ", ""),
+           ("ind-omp", "!$omp parallel do private(", ", ", ") schedule(static)"),
+           ("ind-omp-nospace", "!$omp do private(", ",", ") collapse(2)"),
+           ("ind-omp-blank", "!$omp target teams ", " ", " thread_limit(128)"),
+           ("ind-acc", "!$acc loop private(", ", ", ") independent"),
+           ("ind-acc-nospace", "!$ACC DATA COPYIN(", ",", ") ASYNC(1)")]
+
+
+def overindented(L, tier, seed, li):
+    '''indentation L-3 .. L+6; in the stripped text a separator (= break
+    characters of the limiter) starts at every 0-based column of L-4 .. L+1,
+    the break character before it lies at least 9 columns further left'''
+    res = []
+    for ki, (name, head, sep, close) in enumerate(OVERIND):
+        if tier == "quick" or li % 3:
+            first = L - 3 + (li + ki + seed) % 3
+            indents = [first, first + 3, first + 6]
+        else:
+            indents = list(range(L - 3, L + 7))
+        for col in range(L - 4, L + 2):
+            avail = col - len(head)
+            if avail < 3:
+                continue
+            len_a = min(avail, 9 + (ki + col) % 6)
+            n = avail - len_a
+            if 0 < n < len(sep) + 1:
+                len_a, n = len_a + n, 0
+            text = (head + filler(n, sep, ki + seed) + ident(len_a, ki + 3) + sep
+                    + ident(7, ki + 5) + sep + filler(L // 2, sep, ki + 1)
+                    + "zz_end" + close)
+            for ind in indents:
+                res.append((name, [" " * ind + text]))
+    return res
+
+
 def generate(tier, seed):
     '''-> list of (family, lines, limit, d) ; deterministic.  The quick tier
     thins the family x limit grid (not the offset windows): per limit every
@@ -219,7 +261,7 @@ def generate(tier, seed):
                         continue
                     seen.add(key)
                     cases.append((f[0], [line], L, d if chunk == 1 else 1000 + d))
-        for name, lines in fixed_texts(L):
+        for name, lines in overindented(L, tier, seed, li) + fixed_texts(L):
             key = ("\n".join(lines), L)
             if key in seen:
                 continue
